@@ -50,3 +50,71 @@ Fixpoint all_match (i s : list sobs) : bool :=
 
 Definition holds_seq (cap c0 : Z) (pre : list (Z * list Z)) (h : list op) (o : list sobs) : bool :=
   all_match o (map show_obs (spec_history cap c0 pre h)).
+
+(* ---------------------------------------------------------------- concurrent runs
+   What the receiver thread reported, judged against the list of messages handed to transmit
+   (messages transmitted before the receiver existed first):
+   - every message given to the handler is byte-identical to a transmitted one, and they come in
+     transmission order (no duplicate, no reordering, no mixture of two messages);
+   - a message is skipped only if UnableToKeepUp was returned since the previous delivery;
+   - the receiver thread neither panics nor crashes;
+   - a final receive that starts after the transmitter has finished and finds nothing leaves
+     nothing unreported. *)
+Require Import V.Model.BroadcastThreads.
+
+(* position (from i) of the first message equal to (ty, s) in the transmitted list *)
+Fixpoint find_from (sent : list (Z * string)) (i : Z) (ty : Z) (s : string) : option Z :=
+  match sent with
+  | [] => None
+  | (t, b) :: rest => if (t =? ty) && String.eqb b s then Some i else find_from rest (i + 1) ty s
+  end.
+
+Fixpoint skipz {A} (n : Z) (l : list A) : list A :=
+  match l with [] => [] | x :: r => if n <=? 0 then l else skipz (n - 1) r end.
+
+(* i = index of the next message the receiver has not been given yet; lost = a loss was reported since the last delivery *)
+Fixpoint judge (sent : list (Z * string)) (total : Z) (res : list sres) (i : Z) (lost : bool) (final_quiet : bool) : bool :=
+  match res with
+  | [] => true
+  | r :: rest =>
+      match r with
+      | SMsg ty s =>
+          match find_from (skipz i sent) i ty s with
+          | Some j => (lost || (j =? i)) && judge sent total rest (j + 1) false final_quiet
+          | None => false
+          end
+      | SErr UnableToKeepUp => judge sent total rest i true final_quiet
+      | SErr _ => false
+      | SNone =>
+          match rest with
+          | [] => if final_quiet then lost || (total <=? i) else true
+          | _ => judge sent total rest i lost final_quiet
+          end
+      end
+  end.
+
+(* the last receive began (get_volatile of the tail counter) after the transmitter's last access *)
+Fixpoint quiet_tail (cap : Z) (rtrace : list event) : bool :=
+  match rtrace with
+  | [] => false
+  | (tid, k, _, off, _, _, _, _) :: rest =>
+      if tid =? 1 then
+        match k with
+        | GetVolatile => if off =? tail_idx cap then true else quiet_tail cap rest
+        | _ => quiet_tail cap rest
+        end
+      else false
+  end.
+
+Definition holds_conc (cap : Z) (pre msgs : list (Z * list Z)) (o : cobs) : bool :=
+  match o with
+  | CCrash => false
+  | CObs trace tx_done res e _ _ =>
+      let sent := map (fun p => (fst p, hex (snd p))) (pre ++ msgs) in
+      let total := Z.of_nat (length sent) in
+      let i0 := Z.max 0 (Z.of_nat (length pre) - 1) in
+      match e with
+      | RLive => judge sent total res i0 false ((tx_done =? Z.of_nat (length msgs)) && quiet_tail cap (rev trace))
+      | _ => false
+      end
+  end.
